@@ -187,6 +187,14 @@ def run(ck):
     for g in groups:
         for top in ("/wap/", "/m/wap"):
             shards.append(("default", "wap", g, (("protocols_DOT_wap_DOT_WAPProtocol__waptop", top),)))
+    # entries named like the WAP prefix (or like its parts): /wap/wap is the WAP view of /wap, the prefix comes off once
+    for handlers in ("default", "full"):
+        for crawler in CRAWLERS:
+            if handlers == "default" and crawler in ("sgopher", "https"):
+                continue
+            shards.append((handlers, crawler, [b"wap", b"m"]))
+    for top in ("/wap/", "/m/wap"):
+        shards.append(("default", "wap", [b"wap", b"m"], (("protocols_DOT_wap_DOT_WAPProtocol__waptop", top),)))
     p = ck.pmap(_shard, shards)
     if p.extra.get("capped"):
         ck.caps.append("crawl cap hit: %r" % p.extra["capped"])
